@@ -7,4 +7,11 @@ require (
 	github.com/maypok86/otter/v2 v2.0.0-00010101000000-000000000000
 )
 
+require (
+	github.com/davecgh/go-spew v1.1.1 // indirect
+	github.com/pmezard/go-difflib v1.0.0 // indirect
+	github.com/stretchr/testify v1.11.1 // indirect
+	gopkg.in/yaml.v3 v3.0.1 // indirect
+)
+
 replace github.com/maypok86/otter/v2 => /repo
